@@ -6,35 +6,33 @@
 //! Exceeding the capacity is a *bound* of the harness, not a property of the code: it is
 //! reported through an assertion whose message starts with `BOUND:` and the runner
 //! classifies it as inconclusive, never as a violation.
+use std::mem::MaybeUninit;
 use std::ops::{Deref, DerefMut};
 
 pub const CAP: usize = 6;
 
-#[derive(Clone, Copy, Debug)]
-pub struct AVec<T: Copy + Default> {
+pub struct AVec<T, const N: usize = CAP> {
     len: usize,
-    data: [T; CAP],
+    data: [MaybeUninit<T>; N],
 }
 
-impl<T: Copy + Default> AVec<T> {
+impl<T: std::fmt::Debug, const N: usize> std::fmt::Debug for AVec<T, N> {
+    fn fmt(&self, f: &mut std::fmt::Formatter<'_>) -> std::fmt::Result {
+        f.debug_list().entries(self.as_slice().iter()).finish()
+    }
+}
+
+impl<T, const N: usize> AVec<T, N> {
     pub fn new() -> Self {
-        AVec { len: 0, data: [T::default(); CAP] }
+        // SAFETY: an array of MaybeUninit needs no initialisation.
+        AVec { len: 0, data: unsafe { MaybeUninit::<[MaybeUninit<T>; N]>::uninit().assume_init() } }
     }
     pub fn with_capacity(_n: usize) -> Self {
         Self::new()
     }
-    pub fn from_slice(s: &[T]) -> Self {
-        let mut v = Self::new();
-        let mut i = 0;
-        while i < s.len() {
-            v.push(s[i]);
-            i += 1;
-        }
-        v
-    }
     pub fn push(&mut self, x: T) {
-        assert!(self.len < CAP, "BOUND: AVec capacity exceeded");
-        self.data[self.len] = x;
+        assert!(self.len < N, "BOUND: AVec capacity exceeded");
+        self.data[self.len] = MaybeUninit::new(x);
         self.len += 1;
     }
     pub fn pop(&mut self) -> Option<T> {
@@ -42,37 +40,49 @@ impl<T: Copy + Default> AVec<T> {
             None
         } else {
             self.len -= 1;
-            Some(self.data[self.len])
+            // SAFETY: element `len` was initialised and is now outside the vector.
+            Some(unsafe { self.data[self.len].assume_init_read() })
         }
     }
     pub fn clear(&mut self) {
-        self.len = 0;
+        self.truncate(0)
     }
     pub fn truncate(&mut self, n: usize) {
-        if n < self.len {
-            self.len = n;
+        if !std::mem::needs_drop::<T>() {
+            // nothing to drop: no loop for plain data
+            if n < self.len {
+                self.len = n;
+            }
+            return;
+        }
+        while self.len > n {
+            self.len -= 1;
+            // SAFETY: initialised, now outside the vector.
+            unsafe { self.data[self.len].assume_init_drop() };
         }
     }
     pub fn retain<F: FnMut(&T) -> bool>(&mut self, mut f: F) {
-        let mut w = 0;
+        let n = self.len;
+        self.len = 0;
         let mut r = 0;
-        while r < self.len {
-            let x = self.data[r];
+        while r < n {
+            // SAFETY: elements r..n are initialised and owned by this loop.
+            let x = unsafe { self.data[r].assume_init_read() };
             if f(&x) {
-                self.data[w] = x;
-                w += 1;
+                self.data[self.len] = MaybeUninit::new(x);
+                self.len += 1;
             }
             r += 1;
         }
-        self.len = w;
     }
     /// `Vec::split_off`: panics if `at > len`, like the real one.
     pub fn split_off(&mut self, at: usize) -> Self {
-        assert!(at <= self.len, "`at` split index (is {at}) should be <= len");
+        assert!(at <= self.len, "`at` split index should be <= len");
         let mut o = Self::new();
         let mut i = at;
         while i < self.len {
-            o.push(self.data[i]);
+            // SAFETY: initialised; ownership moves to `o`.
+            o.push(unsafe { self.data[i].assume_init_read() });
             i += 1;
         }
         self.len = at;
@@ -80,55 +90,118 @@ impl<T: Copy + Default> AVec<T> {
     }
     pub fn insert(&mut self, idx: usize, x: T) {
         assert!(idx <= self.len, "insertion index should be <= len");
-        assert!(self.len < CAP, "BOUND: AVec capacity exceeded");
+        assert!(self.len < N, "BOUND: AVec capacity exceeded");
         let mut i = self.len;
         while i > idx {
-            self.data[i] = self.data[i - 1];
+            // SAFETY: moving initialised elements one slot up.
+            self.data[i] = MaybeUninit::new(unsafe { self.data[i - 1].assume_init_read() });
             i -= 1;
         }
-        self.data[idx] = x;
+        self.data[idx] = MaybeUninit::new(x);
         self.len += 1;
     }
     pub fn remove(&mut self, idx: usize) -> T {
         assert!(idx < self.len, "removal index should be < len");
-        let x = self.data[idx];
+        // SAFETY: initialised.
+        let x = unsafe { self.data[idx].assume_init_read() };
         let mut i = idx;
         while i + 1 < self.len {
-            self.data[i] = self.data[i + 1];
+            self.data[i] = MaybeUninit::new(unsafe { self.data[i + 1].assume_init_read() });
             i += 1;
         }
         self.len -= 1;
         x
     }
     pub fn as_slice(&self) -> &[T] {
-        &self.data[..self.len]
+        // SAFETY: the first `len` elements are initialised.
+        unsafe { std::slice::from_raw_parts(self.data.as_ptr() as *const T, self.len) }
+    }
+    pub fn as_mut_slice(&mut self) -> &mut [T] {
+        // SAFETY: the first `len` elements are initialised.
+        unsafe { std::slice::from_raw_parts_mut(self.data.as_mut_ptr() as *mut T, self.len) }
+    }
+    /// Stable insertion sort with the caller's comparator. (`[T]::sort_by` itself is not
+    /// the subject of any property; the comparator passed by the sliced code is.)
+    pub fn sort_by<F: FnMut(&T, &T) -> std::cmp::Ordering>(&mut self, mut f: F) {
+        let n = self.len;
+        let s = self.as_mut_slice();
+        let mut i = 1;
+        while i < n {
+            let mut j = i;
+            while j > 0 && f(&s[j - 1], &s[j]) == std::cmp::Ordering::Greater {
+                s.swap(j - 1, j);
+                j -= 1;
+            }
+            i += 1;
+        }
+    }
+    pub fn sort(&mut self)
+    where
+        T: Ord,
+    {
+        self.sort_by(|a, b| a.cmp(b))
+    }
+    pub fn extend_from_slice(&mut self, s: &[T])
+    where
+        T: Clone,
+    {
+        let mut i = 0;
+        while i < s.len() {
+            self.push(s[i].clone());
+            i += 1;
+        }
+    }
+    pub fn from_slice(s: &[T]) -> Self
+    where
+        T: Clone,
+    {
+        let mut v = Self::new();
+        v.extend_from_slice(s);
+        v
     }
 }
 
-impl<T: Copy + Default> Default for AVec<T> {
+impl<T, const N: usize> Drop for AVec<T, N> {
+    fn drop(&mut self) {
+        self.truncate(0)
+    }
+}
+impl<T: Clone, const N: usize> Clone for AVec<T, N> {
+    fn clone(&self) -> Self {
+        Self::from_slice(self.as_slice())
+    }
+}
+impl<T, const N: usize> Default for AVec<T, N> {
     fn default() -> Self {
         Self::new()
     }
 }
-impl<T: Copy + Default> Deref for AVec<T> {
+impl<T, const N: usize> Deref for AVec<T, N> {
     type Target = [T];
     fn deref(&self) -> &[T] {
-        &self.data[..self.len]
+        self.as_slice()
     }
 }
-impl<T: Copy + Default> DerefMut for AVec<T> {
+impl<T, const N: usize> DerefMut for AVec<T, N> {
     fn deref_mut(&mut self) -> &mut [T] {
-        &mut self.data[..self.len]
+        self.as_mut_slice()
     }
 }
-impl<T: Copy + Default> Extend<T> for AVec<T> {
+impl<T, const N: usize> Extend<T> for AVec<T, N> {
     fn extend<I: IntoIterator<Item = T>>(&mut self, it: I) {
         for x in it {
             self.push(x);
         }
     }
 }
-impl<T: Copy + Default> FromIterator<T> for AVec<T> {
+impl<'a, T: Copy + 'a, const N: usize> Extend<&'a T> for AVec<T, N> {
+    fn extend<I: IntoIterator<Item = &'a T>>(&mut self, it: I) {
+        for x in it {
+            self.push(*x);
+        }
+    }
+}
+impl<T, const N: usize> FromIterator<T> for AVec<T, N> {
     fn from_iter<I: IntoIterator<Item = T>>(it: I) -> Self {
         let mut v = Self::new();
         for x in it {
@@ -137,15 +210,16 @@ impl<T: Copy + Default> FromIterator<T> for AVec<T> {
         v
     }
 }
-pub struct AIntoIter<T: Copy + Default> {
-    v: AVec<T>,
+pub struct AIntoIter<T, const N: usize> {
+    v: AVec<T, N>,
     i: usize,
 }
-impl<T: Copy + Default> Iterator for AIntoIter<T> {
+impl<T, const N: usize> Iterator for AIntoIter<T, N> {
     type Item = T;
     fn next(&mut self) -> Option<T> {
         if self.i < self.v.len {
-            let x = self.v.data[self.i];
+            // SAFETY: elements i..len are initialised and owned by the iterator.
+            let x = unsafe { self.v.data[self.i].assume_init_read() };
             self.i += 1;
             Some(x)
         } else {
@@ -153,37 +227,50 @@ impl<T: Copy + Default> Iterator for AIntoIter<T> {
         }
     }
 }
-impl<T: Copy + Default> IntoIterator for AVec<T> {
-    type Item = T;
-    type IntoIter = AIntoIter<T>;
-    fn into_iter(self) -> AIntoIter<T> {
-        AIntoIter { v: self, i: 0 }
+impl<T, const N: usize> Drop for AIntoIter<T, N> {
+    fn drop(&mut self) {
+        while std::mem::needs_drop::<T>() && self.i < self.v.len {
+            // SAFETY: not yet yielded, still initialised.
+            unsafe { self.v.data[self.i].assume_init_drop() };
+            self.i += 1;
+        }
+        self.v.len = 0;
     }
 }
-impl<'a, T: Copy + Default> IntoIterator for &'a AVec<T> {
+impl<T, const N: usize> IntoIterator for AVec<T, N> {
+    type Item = T;
+    type IntoIter = AIntoIter<T, N>;
+    fn into_iter(self) -> AIntoIter<T, N> {
+        // SAFETY: `self` is forgotten right after the bitwise move into the iterator.
+        let v = unsafe { std::ptr::read(&self) };
+        std::mem::forget(self);
+        AIntoIter { v, i: 0 }
+    }
+}
+impl<'a, T, const N: usize> IntoIterator for &'a AVec<T, N> {
     type Item = &'a T;
     type IntoIter = std::slice::Iter<'a, T>;
     fn into_iter(self) -> std::slice::Iter<'a, T> {
         self.as_slice().iter()
     }
 }
-impl<'a, T: Copy + Default> IntoIterator for &'a mut AVec<T> {
+impl<'a, T, const N: usize> IntoIterator for &'a mut AVec<T, N> {
     type Item = &'a mut T;
     type IntoIter = std::slice::IterMut<'a, T>;
     fn into_iter(self) -> std::slice::IterMut<'a, T> {
-        let l = self.len;
-        self.data[..l].iter_mut()
+        self.as_mut_slice().iter_mut()
     }
 }
-impl<T: Copy + Default + PartialEq> PartialEq for AVec<T> {
+impl<T: PartialEq, const N: usize> PartialEq for AVec<T, N> {
     fn eq(&self, o: &Self) -> bool {
         self.as_slice() == o.as_slice()
     }
 }
+impl<T: Eq, const N: usize> Eq for AVec<T, N> {}
 
 /// `vec!` stand-in producing an [`AVec`].
 #[macro_export]
 macro_rules! avec {
     () => { $crate::avec::AVec::new() };
-    ($($x:expr),+ $(,)?) => { $crate::avec::AVec::from_slice(&[$($x),+]) };
+    ($($x:expr),+ $(,)?) => {{ let mut v = $crate::avec::AVec::new(); $( v.push($x); )+ v }};
 }
